@@ -88,8 +88,47 @@ class MachinePolicy(Policy):
             self.reg_types = types
         return self.reg_types
 
+    epoch = ''        # 'EARLIER.' while a scratch snapshot is being evaluated (scratch_snapshot)
+
     def sym(self, name, width):
-        return bitdom.sym_int(self.B, name, width)
+        return bitdom.sym_int(self.B, self.epoch + name, width)
+
+    def scratch_snapshot(self, it, obj, attr, st):
+        """A processor-local attribute the model does not know (a scratch field some change added): its value is whatever
+        a method assigned to it at an EARLIER moment, i.e. the assigned expressions evaluated over a havocked copy of the
+        machine state (symbols EARLIER.*), chosen by a free selector.  A result that depends on it is then visibly not a
+        function of the current architectural state.  None (the old `unknown value`) when an assignment cannot be evaluated."""
+        import ast as _ast
+        if self.epoch:
+            return None
+        ci = self.repo.cls('ArmV6')
+        exprs = []
+        for m in ci.methods.values():
+            for n in _ast.walk(m.node):
+                if isinstance(n, _ast.Assign) and len(n.targets) == 1 and isinstance(n.targets[0], _ast.Attribute) and \
+                        n.targets[0].attr == attr and isinstance(n.targets[0].value, _ast.Name) and n.targets[0].value.id == 'self':
+                    exprs.append((m, n.value))
+        if not exprs:
+            return None
+        B = self.B
+        width = max(1, (len(exprs) - 1).bit_length())
+        sel = bitdom.sym_int(B, 'EARLIER.writer.' + attr, width)
+        cases = []
+        saved = it.cur_func
+        self.epoch = 'EARLIER.'
+        try:
+            for i, (m, e) in enumerate(exprs):
+                it.cur_func = m
+                v = it._eval(e, bitdom.State(1, {'self': V(obj)}, {}))
+                c = it.i_eq(sel, it.const(i)) if i < len(exprs) - 1 else B.NOT(it.i_lt(sel, it.const(i)))
+                for cc, pp in v.cases:
+                    cases.append((B.AND(c, cc), pp))
+        except (bitdom.Unsupported, AnalysisError, KeyError):
+            return None
+        finally:
+            self.epoch = ''
+            it.cur_func = saved
+        return bitdom.Value(it.coalesce(cases))
 
     def attr(self, it, obj, attr, st):
         path, cls = obj[1], obj[2]
@@ -106,7 +145,7 @@ class MachinePolicy(Policy):
                 return V(('obj', path + '.mem', 'MemoryControllerHub'))
             if attr == 'executed_opcode':
                 return V(('obj', path + '.executed_opcode', 'Opcode'))
-            return None
+            return self.scratch_snapshot(it, obj, attr, st)
         if cls == 'Registers':
             t = self.registers_typing().get(attr)
             if t is None:
